@@ -392,7 +392,7 @@ def slot_space(op, mode):
     return story_ks, tks, sks, nks
 
 
-def make_cells(pid, prop, tier, ops=None, N=None, mode=None, thin=None, extra=None, suffix=''):
+def make_cells(pid, prop, tier, ops=None, N=None, mode=None, thin=None, extra=None, suffix='', idlen=1):
     from .cells import Cell, distinct, str_pre
     mode = mode or prop
     out = []
@@ -426,7 +426,7 @@ def make_cells(pid, prop, tier, ops=None, N=None, mode=None, thin=None, extra=No
                         if level == 'item':
                             P['story_k'] = story_k
                             sym += [('p0', 'str'), ('p1', 'str')]
-                            pre += str_pre(['p0', 'p1']) + ['p0 != p1']
+                            pre += str_pre(['p0', 'p1'], idlen) + ['p0 != p1']
                             if story_k == 'unknown':
                                 pre += ['x != p0', 'x != p1']
                         need_x = story_k == 'unknown'
@@ -472,7 +472,7 @@ def make_cells(pid, prop, tier, ops=None, N=None, mode=None, thin=None, extra=No
                         if prop == 'frame':
                             sym += [('c0', 'str'), ('c1', 'str')]
                             pre += str_pre(['c0', 'c1'])
-                        pre = str_pre(strs) + distinct(strs) + pre
+                        pre = str_pre(strs, idlen) + distinct(strs) + pre
                         parts = [pid, op]
                         if story_k and story_k != 'existing':
                             parts.append('story-' + story_k)
